@@ -668,6 +668,11 @@ func firstOpen(v ssa.Value, n *Normer, depth int) ssa.Value {
 		return firstOpen(x.X, n, depth+1)
 	case *ssa.ChangeType:
 		return firstOpen(x.X, n, depth+1)
+	case *ssa.Index:
+		// an element selected by a computed position
+		return firstOpen(x.Index, n, depth+1)
+	case *ssa.Lookup:
+		return firstOpen(x.Index, n, depth+1)
 	case *ssa.Call, *ssa.Extract:
 		if _, _, ok := expandableCall(v, n); ok {
 			return v
